@@ -431,7 +431,11 @@ fn make_env(cell: &Cell, s: &Spec) -> Env {
     if v6 {
         let src_addr: IpAddr = "2001:db8::2".parse().unwrap();
         let other: IpAddr = "2001:db8::3".parse().unwrap();
-        let global = if unspec { Ipv6Addr::UNSPECIFIED } else { nh_global6(s.nh_g) };
+        let global = if unspec {
+            Ipv6Addr::UNSPECIFIED
+        } else {
+            nh_global6(s.nh_g)
+        };
         let stored = match s.nh {
             1 | 4 => Some(bgp::Nexthop::V6(global)),
             3 | 5 => Some(bgp::Nexthop::V6LinkLocal(global, nh_linklocal(s.nh_ll))),
@@ -439,7 +443,11 @@ fn make_env(cell: &Cell, s: &Spec) -> Env {
         };
         let v4_family = matches!(s.nh, 4 | 5);
         Env {
-            family: if v4_family { Family::IPV4 } else { Family::IPV6 },
+            family: if v4_family {
+                Family::IPV4
+            } else {
+                Family::IPV6
+            },
             net: if v4_family {
                 "10.1.0.0/16".parse().unwrap()
             } else {
@@ -587,8 +595,14 @@ fn build_policies() -> Policies {
             }))
         };
         v.push(comm(table::CommunityActionType::Add, vec![POL_C1])); // 7
-        v.push(comm(table::CommunityActionType::Replace, vec![POL_C1, POL_C2])); // 8
-        v.push(comm(table::CommunityActionType::Remove, vec![COMM_A, LLGR_STALE])); // 9
+        v.push(comm(
+            table::CommunityActionType::Replace,
+            vec![POL_C1, POL_C2],
+        )); // 8
+        v.push(comm(
+            table::CommunityActionType::Remove,
+            vec![COMM_A, LLGR_STALE],
+        )); // 9
         v.push(comm(table::CommunityActionType::Replace, vec![])); // 10
         v.push(Some(build_assignment(table::Actions {
             ext_community: Some(table::ExtCommunityAction {
@@ -613,10 +627,15 @@ fn build_policies() -> Policies {
             ..Default::default()
         }))); // 13
         v.push(Some(build_assignment(table::Actions {
-            local_pref: Some(table::LocalPrefAction { value: POL_LOCAL_PREF }),
+            local_pref: Some(table::LocalPrefAction {
+                value: POL_LOCAL_PREF,
+            }),
             ..Default::default()
         }))); // 14
-        v.push(comm(table::CommunityActionType::Remove, vec![COMM_A, COMM_B])); // 15
+        v.push(comm(
+            table::CommunityActionType::Remove,
+            vec![COMM_A, COMM_B],
+        )); // 15
         v
     };
     Policies {
@@ -801,13 +820,24 @@ fn expected_export(cell: &Cell, s: &Spec, env: &Env) -> Expected {
         // export-policy as-prepend: the policy's AS twice in front of the received path
         // (in a confederation segment towards confed-eBGP peers); the per-role rewrite
         // then happens on top of that
-        let kind = if cell.dst == PeerRole::ConfedEbgp { SEG_CSEQ } else { SEG_SEQ };
-        let mut v = vec![Item::Hop(kind, POL_PREPEND_AS), Item::Hop(kind, POL_PREPEND_AS)];
+        let kind = if cell.dst == PeerRole::ConfedEbgp {
+            SEG_CSEQ
+        } else {
+            SEG_SEQ
+        };
+        let mut v = vec![
+            Item::Hop(kind, POL_PREPEND_AS),
+            Item::Hop(kind, POL_PREPEND_AS),
+        ];
         v.extend(in_items);
         in_items = v;
     }
     // LOCAL_PREF as the export policy leaves it
-    let lp_after_policy = if s.policy == 14 { Some(POL_LOCAL_PREF) } else { s.lp };
+    let lp_after_policy = if s.policy == 14 {
+        Some(POL_LOCAL_PREF)
+    } else {
+        s.lp
+    };
     let mut unjudged: Vec<&'static str> = Vec::new();
 
     // attributes the statement does not mention travel unchanged
@@ -889,7 +919,11 @@ fn expected_export(cell: &Cell, s: &Spec, env: &Env) -> Expected {
         nh_by_policy: policy_nh.is_some(),
         nh_self: false,
         llgr_tag_open,
-        ext_community: if s.policy == 11 { Exp::Is(POL_EXT.to_vec()) } else { Exp::Absent },
+        ext_community: if s.policy == 11 {
+            Exp::Is(POL_EXT.to_vec())
+        } else {
+            Exp::Absent
+        },
         large_community: if s.policy == 12 {
             let mut b = Vec::new();
             b.extend_from_slice(&POL_LARGE.0.to_be_bytes());
@@ -1386,11 +1420,17 @@ fn judge(
                 }
                 g
             };
-            let got = got.map(strip).filter(|g| !(e.llgr_tag_open && g.is_empty()));
+            let got = got
+                .map(strip)
+                .filter(|g| !(e.llgr_tag_open && g.is_empty()));
             let want = match &e.communities {
                 Exp::Is(v) => {
                     let v = strip(v.clone());
-                    if v.is_empty() { Exp::Absent } else { Exp::Is(v) }
+                    if v.is_empty() {
+                        Exp::Absent
+                    } else {
+                        Exp::Is(v)
+                    }
                 }
                 o => o.clone(),
             };
@@ -1478,7 +1518,10 @@ fn judge(
             (Exp::Absent, Some(_)) => out.push((
                 "other-attrs",
                 format!("gained-{}", code_name(code)),
-                format!("unexpected attribute {} in the advertisement", code_name(code)),
+                format!(
+                    "unexpected attribute {} in the advertisement",
+                    code_name(code)
+                ),
             )),
             _ => {}
         }
@@ -1880,7 +1923,8 @@ fn run_case_with(
                     ctx.rep.count("clause:llgr-under-community-policy");
                 }
                 if matches!(s.policy, 8 | 9 | 10) {
-                    ctx.rep.count("clause:llgr-under-community-replace-or-remove");
+                    ctx.rep
+                        .count("clause:llgr-under-community-replace-or-remove");
                 }
                 if s.comm == 2 {
                     ctx.rep.count("clause:llgr-source-stale-and-tag-received");
@@ -2423,7 +2467,11 @@ fn run_llgr_history(ctx: &mut Ctx) {
                         ));
                         let sig = format!(
                             "C09/llgr/peer-to-any/stale-transition-{}{}",
-                            if hpol != 0 { "under-community-policy-" } else { "" },
+                            if hpol != 0 {
+                                "under-community-policy-"
+                            } else {
+                                ""
+                            },
                             if addpath { "addpath" } else { "plain" }
                         );
                         let what = format!(
@@ -2441,10 +2489,7 @@ fn run_llgr_history(ctx: &mut Ctx) {
                                     "branch",
                                     Json::s(if addpath { "add-path" } else { "non-add-path" }),
                                 ),
-                                (
-                                    "export_policy",
-                                    Json::s(policy_name(hpol)),
-                                ),
+                                ("export_policy", Json::s(policy_name(hpol))),
                                 (
                                     "other_path",
                                     Json::s(match other {
@@ -2463,7 +2508,8 @@ fn run_llgr_history(ctx: &mut Ctx) {
                 if held_stale {
                     ctx.rep.count("llgr-history:receiver-holds-stale-route");
                     ctx.rep.nontrivial(fnv64(
-                        format!("llgr|{:?}|{:?}|{}|{}|{}", srck, dst, addpath, other, hpol).as_bytes(),
+                        format!("llgr|{:?}|{:?}|{}|{}|{}", srck, dst, addpath, other, hpol)
+                            .as_bytes(),
                     ));
                 }
             }
@@ -3108,7 +3154,6 @@ impl SrcCache {
     }
 }
 
-
 fn gen_wpath(
     rng: &mut Rng,
     b: &Batch,
@@ -3151,7 +3196,11 @@ fn gen_wpath(
         1 => *rng.pick(&[1u8, 1, 3, 3, 3, 3, 6]),
         _ => *rng.pick(&[4u8, 4, 5, 5, 5, 5]),
     };
-    spec.nh_g = if b.flavour == 0 { rng.below(3) as u8 } else { rng.below(2) as u8 };
+    spec.nh_g = if b.flavour == 0 {
+        rng.below(3) as u8
+    } else {
+        rng.below(2) as u8
+    };
     spec.nh_ll = rng.below(2) as u8;
     spec.link_local = b.link_local;
     let mut env = make_env(&cell, &spec);
@@ -3206,7 +3255,9 @@ fn gen_batch(rng: &mut Rng) -> (Batch, Vec<(Spec, Arc<Vec<packet::Attribute>>)>)
         confed: rng.chance(1, 4),
         addpath: rng.bool(),
         // none (mostly), nh-unchanged (keeps explicit next hops towards eBGP), MED actions
-        policy: *rng.pick(&[0u8, 0, 0, 4, 4, 5, 6, 7, 8, 8, 9, 9, 10, 10, 11, 12, 13, 14, 15]),
+        policy: *rng.pick(&[
+            0u8, 0, 0, 4, 4, 5, 6, 7, 8, 8, 9, 9, 10, 10, 11, 12, 13, 14, 15,
+        ]),
         ctx_asn_confed: rng.bool(),
         flavour: *rng.pick(&[0u8, 0, 1, 1, 1, 2, 2]),
         link_local: rng.bool(),
@@ -3543,7 +3594,8 @@ fn judge_wire_view(
             .iter()
             .any(|x| nhs.iter().any(|y| x != y && x.addr() == y.addr()));
         if clash {
-            ctx.rep.count("wire:equal-attrs-equal-global-different-link-local");
+            ctx.rep
+                .count("wire:equal-attrs-equal-global-different-link-local");
         }
     }
     for (nh, _) in shadow.values() {
@@ -3571,7 +3623,11 @@ fn judge_wire_view(
 fn run_wire_batch(ctx: &mut Ctx, rng: &mut Rng, use_pending: bool) {
     let sink_name: &'static str = if use_pending { "pending" } else { "grouped" };
     let (b, templates) = gen_batch(rng);
-    let family = if b.flavour == 1 { Family::IPV6 } else { Family::IPV4 };
+    let family = if b.flavour == 1 {
+        Family::IPV6
+    } else {
+        Family::IPV4
+    };
     let n = rng.range(4, 40) as usize;
     let mut cache = SrcCache { m: BTreeMap::new() };
     let mut routes: Vec<WRoute> = Vec::new();
